@@ -380,8 +380,25 @@ void World::CheckOutput(const InvRecord& r) {
     // a command that was reaped but whose completion ninja never processed (it
     // stopped for an interrupt first) is not reported either
     size_t pos = T.find(want);
+    if (interrupted && pos != std::string::npos) stats->n["interrupted_outputs_shown"]++;
     if (pos == std::string::npos) {
-      if (interrupted) continue;
+      if (interrupted) {
+        // ... unless ninja demonstrably did process it: a new build-log record is written only
+        // after the output was handed to the printer (held back while a console command owns
+        // the terminal), and what the printer holds must be shown before ninja exits
+        if (x.reap_status == 0 && !x.outs.empty() && !r.log_torn_tail_before && r.log_after.valid_header) {
+          auto a = r.log_after.last.find(x.outs[0]);
+          auto b = r.log_before.last.find(x.outs[0]);
+          bool fresh = a != r.log_after.last.end() &&
+                       (b == r.log_before.last.end() || b->second.start != a->second.start || b->second.end != a->second.end || b->second.mtime != a->second.mtime || b->second.hash != a->second.hash);
+          std::string tag = want.substr(0, want.find(">>") + 2);
+          if (fresh) stats->n["interrupted_processed_output_missing_whole"]++;
+          if (fresh && T.find(tag) == std::string::npos) {
+            Report("C20", "output_lost_or_dup", "statement " + S(x.stmt) + " finished and was recorded in the build log before the interrupt, but its output (" + tag + ") was never shown");
+          }
+        }
+        continue;
+      }
       // every tag must still be there exactly once: distinguish lost from interleaved
       std::string tag = want.substr(0, want.find(">>") + 2);
       if (T.find(tag) == std::string::npos)
@@ -772,6 +789,35 @@ void World::CheckMinimality(const InvRecord& r) {
   }
 }
 
+// C10, direct form: what a successful command reported is what the deps log
+// holds for its output afterwards - also when the output itself was left alone
+// (restat) and the list merely names other files than before.
+void World::CheckRecordedDeps(const InvRecord& r) {
+  if (!r.ok() || !r.quiet() || r.plan.dry || !r.plan.tool.empty() || r.plan.garbage_child_output) return;
+  if (sc.features & F_HOSTILE_NAMES) return;   // depfile syntax cannot spell those names
+  std::map<int, const SpawnRec*> last;
+  for (const SpawnRec& x : r.spawns) if (x.deps_kind >= 2 && x.reap_status == 0 && x.stmt >= 0) last[x.stmt] = &x;
+  for (auto& kv : last) {
+    const SpawnRec& x = *kv.second;
+    if (x.outs.empty()) continue;
+    if (x.stmt >= (int)sc.stmts.size() || !sc.stmts[x.stmt].alive || sc.stmts[x.stmt].deps_kind != x.deps_kind) continue;   // the manifest changed under the build
+    std::set<std::string> want(x.reported_deps.begin(), x.reported_deps.end());
+    auto rec = r.deps_after.last.find(x.outs[0]);
+    stats->n["recorded_deps_checked"]++;
+    if (rec == r.deps_after.last.end()) {
+      Report("C10", "deps_not_recorded", "statement " + S(x.stmt) + " ran successfully and reported " + S((int)want.size()) + " dependencies, but the deps log has no record for " + x.outs[0]);
+      continue;
+    }
+    std::set<std::string> have(rec->second.deps.begin(), rec->second.deps.end());
+    if (have != want) {
+      std::string a, b;
+      for (auto& p : want) a += p + " ";
+      for (auto& p : have) b += p + " ";
+      Report("C10", "deps_not_recorded", "statement " + S(x.stmt) + " ran successfully and reported [" + a + "] but the deps log holds [" + b + "] for " + x.outs[0]);
+    }
+  }
+}
+
 void World::CheckAll(InvRecord& r) {
   CheckTermination(r);
   CheckOrdering(r);
@@ -782,6 +828,7 @@ void World::CheckAll(InvRecord& r) {
   CheckOutput(r);
   CheckContent(r, "C01");
   CheckMinimality(r);
+  CheckRecordedDeps(r);
   UpdateCleanState(r);
 }
 
